@@ -7,6 +7,7 @@ import (
 	"sync/atomic"
 	"testing"
 
+	"google.golang.org/protobuf/reflect/protoreflect"
 	"pgregory.net/rapid"
 )
 
@@ -44,7 +45,24 @@ func TestC18(t *testing.T) {
 // genRejection18: the rejection classes not covered by genRejection.
 func genRejection18(t *rapid.T, sc *Scenario) string {
 	c := &sc.Client
-	switch rapid.SampledFrom([]string{"wrong_http_method", "bidi_http1", "stray_content_encoding", "stream_type", "two_content_types", "bad_first_message", "get_on_side_effects", "rest_wrong_method"}).Draw(t, "reject18") {
+	switch rapid.SampledFrom([]string{"wrong_http_method", "bidi_http1", "stray_content_encoding", "stream_type", "two_content_types", "bad_first_message", "truncated_first_message", "get_on_side_effects", "rest_wrong_method"}).Draw(t, "reject18") {
+	case "truncated_first_message":
+		// the stream stops at various points of the leading message that the REST request line needs
+		if !formEnveloped(c.Form) {
+			return ""
+		}
+		c.Method = rapid.SampledFrom([]string{"Unary", "Params", "UnaryGet"}).Draw(t, "trunc_method")
+		mi := lookupMethod(benchService, c.Method)
+		m := newMessage(mi.In)
+		m.ProtoReflect().Set(m.ProtoReflect().Descriptor().Fields().ByName("string_value"), protoreflect.ValueOfString("leading"))
+		c.Msgs = [][]byte{mustMarshal(m)}
+		c.MsgRaw = []bool{true}
+		sc.Config.Protocols = []string{ProtoREST}
+		c.Fault = &Fault{Kind: FaultCut, At: rapid.SampledFrom([]int{1, 4, 5, 5, 5, 6, 8}).Draw(t, "trunc_at")}
+		if rapid.Bool().Draw(t, "trunc_clean_eof") {
+			c.Fault.Kind = FaultCutClean
+		}
+		return "pre:truncated_first_message"
 	case "wrong_http_method":
 		if c.Form == FormREST || c.Form == FormConnectGet {
 			return ""
@@ -87,7 +105,7 @@ func genRejection18(t *rapid.T, sc *Scenario) string {
 		if c.Form == FormREST || c.Form == FormConnectGet || len(c.Msgs) == 0 {
 			return ""
 		}
-		if len(c.Msgs[0]) == 0 && c.Codec == CodecProto && c.Compression == "" {
+		if len(c.Msgs[0]) == 0 && (c.Codec == CodecProto || c.Codec == CodecText) && c.Compression == "" {
 			return ""
 		}
 		sc.Config.Protocols = []string{ProtoREST}
